@@ -1,35 +1,269 @@
 (* C11 - Answers do not depend on how program variables are named.
+   (First half - clause fetch commutes with renaming of names - in Properties/C11base.v, restated below.)
 
-   PARTIAL.  The full statement: if every clause of kb' is a clause of kb with its variables
-   renamed by a (per clause) injective map of names - different clauses may be mapped onto
-   the same names, including the query's - then every history of requests on a query yields
-   the same answers in the same order up to the names of unbound variables, and the same
-   output.  PROVED: the half of the argument that concerns the program text - every clause
-   fetch from kb' returns the renamed fetched clause of kb with THE SAME fresh variable ids
-   and the same counter (ids are assigned by first occurrence, which an injective renaming
-   preserves), for all knowledge bases, predicates, indices and counters.  From there on the
-   engine identifies variables by id (C10: ids of different fetches never clash), names being
-   used only by Display; that second half (a lock-step simulation of the whole solver) is not
-   yet proved and is decided on every run by solving each generated program as written and
-   under four renamings on the implementation and comparing all observations. *)
-From Suiron Require Import Model.Term Model.Subst Model.Rename Model.Solve Proofs.RenameNames Proofs.SolveFrame.
+   PROVED (Proofs/NamesRel.v, NamesUnify.v, NamesBuiltins.v, NamesSearch.v): for the reference search
+   of Spec/SpecCut.v (which the engine model refines, Proofs/RefineCut.v) - if every clause of kb'
+   is the corresponding clause of kb with its variable names renamed by a per clause injective map,
+   then for every query, fuel and world the two searches end in the same outcome class (answers /
+   panic / out of fuel) and, when they give answers, the same number of answers in the same order,
+   pairwise equal except for the names of variables, and worlds that agree on the variable-id
+   counter, the stop flag and the stop schedule.  Every built-in predicate, unification, the
+   arithmetic functions, cut, not and time are covered.
+   PROVED ALSO for the engine model itself (Proofs/NamesEngine.v): a lock-step simulation of
+   `next` on solution nodes; hence the observations of any number of requests on a query built by
+   make_query are equal once names are erased (C11_requests: C11_full of Properties/C11base.v with the
+   hypothesis okkb and without the claim about the output).
 
-(* names erased from a term / an answer *)
-Definition no_names (t : term) : term := mapn (fun _ => []) t.
-Definition no_names_obs (o : qobs) : qobs :=
-  match o with
-  | OAns (Some s) => OAns (Some (map (option_map no_names) s))
-  | _ => o
-  end.
+   The property is FALSE in general; three things in the engine look at the NAME of a variable:
+     1. `join(..)` turns its arguments into text with Display, which prints an unbound variable as
+        name_id: the answer contains the name               (witness: cex_join below);
+     2. the key under which the clauses of a call goal are looked up is Display(functor)/arity:
+        a goal whose functor is a variable is looked up under a key that contains the name
+                                                             (witness: cex_functor below);
+     3. print and print_list write unbound variables with their names: the OUTPUT differs
+        (witness: cex_print; hence C11_full of Properties/C11base.v, which asks for equal output,
+        is false as stated: C11_full_false).
+   The theorem therefore assumes `okkb kb` (decidable: no join with a variable among its
+   arguments, no variable in the functor of a call goal) and does not relate the output. *)
+From Coq Require Import String Lia.
+From Suiron Require Import Model.Term Model.Subst Model.Show Model.Lists Model.Arith Model.Unify
+  Model.Compare Model.Builtins Model.Rename Model.Solve Spec.SpecCut
+  Proofs.RenameProofs Proofs.RenameNames Proofs.SolveFrame Proofs.RefineCut
+  Proofs.NamesRel Proofs.NamesUnify Proofs.NamesBuiltins Proofs.NamesSearch Proofs.NamesEngine Properties.C11base.
+Open Scope N_scope.
 
-Definition C11_full : Prop :=
-  forall kb kb' fuel terms n w os o,
-    kb_renamed kb kb' ->
-    run_query kb fuel terms (repeat QAsk n) w = Ok (os, o) ->
-    exists os', (run_query kb' fuel terms (repeat QAsk n) w = Ok (os', o)) /\
-                (map no_names_obs os' = map no_names_obs os).
+(* ---- the theorem ---- *)
+Theorem C11_answers : forall kb kb' bf fuel q w,
+  kb_renamed kb kb' -> okkb kb = true -> query_ok q (next_id w) ->
+  rrel answers_rel (canswers kb bf fuel q w) (canswers kb' bf fuel q w).
+Proof. exact canswers_renamed. Qed.
 
-Theorem C11_partial_clause_fetch : forall kb kb' pred i ctr,
+(* for a query built by make_query (the parser's path), run in the world make_query leaves *)
+Theorem C11_answers_query : forall kb kb' bf fuel terms q ctr w,
+  kb_renamed kb kb' -> okkb kb = true -> forallb okt terms = true ->
+  make_query terms = Ok (GCall q, ctr) -> next_id w = ctr ->
+  rrel answers_rel (canswers kb bf fuel q w) (canswers kb' bf fuel q w).
+Proof. exact canswers_renamed_query. Qed.
+
+(* the engine model (Model/Solve.v `next`, asked until it reports no answer): whenever the reference
+   search of the query finishes and both drains finish, the answers of the two engines are equal
+   up to names, and the worlds agree on counter, flag and schedule *)
+Theorem C11_engine : forall kb kb' bf fs q w R nd w1 nd' w1' m F A m' F' A',
+  kb_renamed kb kb' -> okkb kb = true -> query_ok q (next_id w) ->
+  canswers kb bf fs q w = Ok R ->
+  make_base_node kb (GCall q) w = Ok (nd, w1) -> ask_all kb bf m F nd w1 = Ok A ->
+  make_base_node kb' (GCall q) w = Ok (nd', w1') -> ask_all kb' bf m' F' nd' w1' = Ok A' ->
+  answers_rel A A'.
+Proof.
+  intros kb kb' bf fs q w R nd w1 nd' w1' m F A m' F' A' Hkb Hok Hq Hc Hn Ha Hn' Ha'.
+  pose proof (canswers_renamed kb kb' bf fs q w Hkb Hok Hq) as H. rewrite Hc in H.
+  destruct (canswers kb' bf fs q w) as [R'| |] eqn:Hc'; cbn in H; try contradiction.
+  rewrite (refines_cut kb bf q w fs R nd w1 m F A Hc Hn Ha).
+  rewrite (refines_cut kb' bf q w fs R' nd' w1' m' F' A' Hc' Hn' Ha'). exact H.
+Qed.
+
+(* the engine model, any number of requests, no termination hypothesis: one request on related nodes *)
+Theorem C11_next : forall kb kb' bf fuel V nd nd' w w',
+  kb_renamed kb kb' -> okkb kb = true ->
+  vfun V -> vbound V (next_id w) -> simn V nd nd' -> wsim w w' ->
+  rrel (step_rel V (next_id w)) (next kb bf fuel nd w) (next kb' bf fuel nd' w').
+Proof. intros kb kb' bf fuel V nd nd' w w' Hkb Hok. apply (proj1 (next_sim kb kb' bf Hkb Hok fuel)). Qed.
+
+(* make_query, the query's node, n requests: same outcome class, and related observations *)
+Theorem C11_requests_rel : forall kb kb' fuel terms n w,
+  kb_renamed kb kb' -> okkb kb = true -> forallb okt terms = true ->
+  rrel (fun x x' => Forall2 obs_rel (fst x) (fst x'))
+       (run_query kb fuel terms (repeat QAsk n) w) (run_query kb' fuel terms (repeat QAsk n) w).
+Proof. intros. apply run_query_asks; assumption. Qed.
+
+(* in the form of C11_full *)
+Theorem C11_requests : forall kb kb' fuel terms n w os o,
+  kb_renamed kb kb' -> okkb kb = true -> forallb okt terms = true ->
+  run_query kb fuel terms (repeat QAsk n) w = Ok (os, o) ->
+  exists os' o', run_query kb' fuel terms (repeat QAsk n) w = Ok (os', o') /\
+                 map no_names_obs os' = map no_names_obs os.
+Proof.
+  intros kb kb' fuel terms n w os o Hkb Hok Ht H.
+  pose proof (run_query_asks kb kb' Hkb Hok fuel terms n w Ht) as R. rewrite H in R.
+  destruct (run_query kb' fuel terms (repeat QAsk n) w) as [[os' o']| |]; cbn in R; try contradiction.
+  exists os', o'. split; [reflexivity|]. cbn [fst] in R. clear H.
+  induction R as [|x y l l' Hxy _ IH]; [reflexivity|]. cbn [map]. rewrite IH. f_equal.
+  destruct x as [s| |], y as [s'| |]; cbn in Hxy; try contradiction.
+  destruct s as [s|], s' as [s'|]; cbn in Hxy; try contradiction; [|reflexivity].
+  cbn. do 2 f_equal. symmetry. unfold no_names. eapply sims_erased; [reflexivity|exact Hxy].
+Qed.
+
+(* ---- renaming a name by swapping two names is injective ---- *)
+Definition swapn (a b s : str) : str := if str_eqb s a then b else if str_eqb s b then a else s.
+
+Lemma swapn_invol a b s : swapn a b (swapn a b s) = s.
+Proof.
+  unfold swapn. destruct (str_eqb s a) eqn:E1.
+  - apply str_eqb_eq in E1; subst. destruct (str_eqb b a) eqn:E2.
+    + now apply str_eqb_eq in E2.
+    + now rewrite str_eqb_refl.
+  - destruct (str_eqb s b) eqn:E2.
+    + apply str_eqb_eq in E2; subst. now rewrite str_eqb_refl.
+    + now rewrite E1, E2.
+Qed.
+
+Lemma swapn_inj a b x y : swapn a b x = swapn a b y -> x = y.
+Proof. intro H. rewrite <- (swapn_invol a b x), H. apply swapn_invol. Qed.
+
+Definition at_ (s : string) := TAtom (s2l s).
+Definition v_ (s : string) := TVar 0 (s2l s).
+Definition w0 (n : N) := mkWorld n false None [].
+Definition erase_names (a : list subst) := map (map (option_map no_names)) a.
+
+(* ---- 1. join shows the name of an unbound variable ----
+   f($X, $Y) :- unify($Y, join($X, hello)).    ?- f($A, $R).
+   $R = `$X_3 hello`   versus   $R = `$Z_3 hello`   *)
+Definition kb_join (x : string) : kbase :=
+  [(s2l "f/2", [mkRule (TComplex [at_ "f"; v_ x; v_ "$Y"])
+                       (GBip n_unify (Some [v_ "$Y"; TFun fname_join [v_ x; at_ "hello"]]))])].
+Definition q_join := TComplex [at_ "f"; TVar 1 (s2l "$A"); TVar 2 (s2l "$R")].
+
+Lemma kb_join_renamed : kb_renamed (kb_join "$X") (kb_join "$Z").
+Proof.
+  constructor; [|constructor]. split; [reflexivity|]. constructor; [|constructor].
+  exists (swapn (s2l "$X") (s2l "$Z")). split; [apply swapn_inj|]. vm_compute. reflexivity.
+Qed.
+
+Definition second_of (r : res (list subst * world)) : res (list (option term)) :=
+  match r with Ok (l, _) => Ok (map (fun s => ss_get s 2) l) | Panic => Panic | OutOfFuel => OutOfFuel end.
+
+Example cex_join :
+  second_of (canswers (kb_join "$X") 50 50 q_join (w0 2)) = Ok [Some (at_ "$X_3 hello")] /\
+  second_of (canswers (kb_join "$Z") 50 50 q_join (w0 2)) = Ok [Some (at_ "$Z_3 hello")].
+Proof. split; vm_compute; reflexivity. Qed.
+
+(* the hypothesis of the theorem excludes it *)
+Example cex_join_not_ok : okkb (kb_join "$X") = false.
+Proof. vm_compute. reflexivity. Qed.
+
+(* ---- 2. the key of a call goal whose functor is a variable contains the name ----
+   g :- $P(c).      `$P_1`(c).         ?- g.
+   one answer   versus   none (the goal $Q_1(c) is looked up under `$Q_1/1`) *)
+Definition kb_functor (p : string) : kbase :=
+  [(s2l "g/0", [mkRule (TComplex [at_ "g"]) (GCall (TComplex [v_ p; at_ "c"]))]);
+   (s2l "$P_1/1", [mkRule (TComplex [at_ "$P_1"; at_ "c"]) GNil])].
+Definition q_functor := TComplex [at_ "g"].
+
+Lemma kb_functor_renamed : kb_renamed (kb_functor "$P") (kb_functor "$Q").
+Proof.
+  constructor; [|constructor; [|constructor]]; (split; [reflexivity|]); (constructor; [|constructor]);
+    exists (swapn (s2l "$P") (s2l "$Q")); (split; [apply swapn_inj|]); vm_compute; reflexivity.
+Qed.
+
+Definition count_of (r : res (list subst * world)) : res nat :=
+  match r with Ok (l, _) => Ok (length l) | Panic => Panic | OutOfFuel => OutOfFuel end.
+
+Example cex_functor :
+  count_of (canswers (kb_functor "$P") 50 50 q_functor (w0 0)) = Ok 1%nat /\
+  count_of (canswers (kb_functor "$Q") 50 50 q_functor (w0 0)) = Ok 0%nat.
+Proof. split; vm_compute; reflexivity. Qed.
+
+Example cex_functor_not_ok : okkb (kb_functor "$P") = false.
+Proof. vm_compute. reflexivity. Qed.
+
+(* ---- 3. print writes the name of an unbound variable: the output differs ----
+   p :- print($X).      ?- p.       prints `$X_1`   versus   `$Y_1` *)
+Definition kb_print (x : string) : kbase :=
+  [(s2l "p/0", [mkRule (TComplex [at_ "p"]) (GBip n_print (Some [v_ x]))])].
+
+Lemma kb_print_renamed : kb_renamed (kb_print "$X") (kb_print "$Y").
+Proof.
+  constructor; [|constructor]. split; [reflexivity|]. constructor; [|constructor].
+  exists (swapn (s2l "$X") (s2l "$Y")). split; [apply swapn_inj|]. vm_compute. reflexivity.
+Qed.
+
+Example cex_print :
+  run_query (kb_print "$X") 20 [at_ "p"] (repeat QAsk 1) world0 = Ok ([OAns (Some [])], s2l "$X_1") /\
+  run_query (kb_print "$Y") 20 [at_ "p"] (repeat QAsk 1) world0 = Ok ([OAns (Some [])], s2l "$Y_1").
+Proof. split; vm_compute; reflexivity. Qed.
+
+(* this program satisfies the hypothesis of the theorem: its answers ARE related, its output is not *)
+Example cex_print_ok : okkb (kb_print "$X") = true.
+Proof. vm_compute. reflexivity. Qed.
+
+(* C11_full (Properties/C11base.v) asks for the same output: false as stated *)
+Theorem C11_full_false : ~ C11_full.
+Proof.
+  intro H. destruct cex_print as [H1 H2].
+  destruct (H _ _ _ _ _ _ _ _ kb_print_renamed H1) as (os' & H3 & _).
+  rewrite H2 in H3. discriminate.
+Qed.
+
+(* ---- non-vacuity: a program with recursion, cut, not, arithmetic and list built-ins, solved as
+   written and with every variable renamed; the answers agree once names are erased ---- *)
+Definition kb_demo (x y z l : string) : kbase :=
+  [(s2l "len/2",
+     [mkRule (TComplex [at_ "len"; empty_list; TInt 0]) (GBip n_cut None);
+      mkRule (TComplex [at_ "len"; TList (v_ x) (TList (v_ l) empty_list 1 true) 2 false; v_ y])
+             (GOp OAnd [GCall (TComplex [at_ "len"; v_ l; v_ z]);
+                        GBip n_unify (Some [v_ y; TFun fname_add [v_ z; TInt 1]])])]);
+   (s2l "p/2",
+     [mkRule (TComplex [at_ "p"; v_ x; v_ y])
+             (GOp OAnd [GCall (TComplex [at_ "len"; v_ x; v_ y]);
+                        GOp ONot [GBip n_equal (Some [v_ y; TInt 0])];
+                        GBip n_print (Some [v_ z])]);
+      mkRule (TComplex [at_ "p"; v_ x; TComplex [at_ "k"; v_ y; v_ z]]) GNil])].
+
+Definition q_demo :=
+  TComplex [at_ "p"; TList (at_ "a") (TList (at_ "b") empty_list 1 false) 2 false; TVar 1 (s2l "$N")].
+
+Lemma kb_demo_renamed : kb_renamed (kb_demo "$X" "$Y" "$Z" "$L") (kb_demo "$Y" "$A" "$X" "$B").
+Proof.
+  set (phi := fun s : str =>
+    if str_eqb s (s2l "$X") then s2l "$Y" else if str_eqb s (s2l "$Y") then s2l "$A"
+    else if str_eqb s (s2l "$Z") then s2l "$X" else if str_eqb s (s2l "$L") then s2l "$B"
+    else 0 :: s).
+  assert (forall a b, phi a = phi b -> a = b) as Hinj.
+  { intros a b. unfold phi.
+    repeat match goal with
+           | |- context [str_eqb ?u ?c] => let E := fresh "E" in destruct (str_eqb u c) eqn:E;
+               [apply str_eqb_eq in E; subst u|]
+           end; intro H; try reflexivity; try discriminate H; try (inversion H; reflexivity). }
+  constructor; [|constructor; [|constructor]]; (split; [reflexivity|]).
+  - constructor; [|constructor; [|constructor]]; exists phi; (split; [exact Hinj|]); vm_compute; reflexivity.
+  - constructor; [|constructor; [|constructor]]; exists phi; (split; [exact Hinj|]); vm_compute; reflexivity.
+Qed.
+
+Example demo_ok : okkb (kb_demo "$X" "$Y" "$Z" "$L") = true.
+Proof. vm_compute. reflexivity. Qed.
+
+Definition erased (r : res (list subst * world)) : res (list subst * N) :=
+  match r with Ok (l, w) => Ok (erase_names l, next_id w) | Panic => Panic | OutOfFuel => OutOfFuel end.
+
+Example demo_runs :
+  erased (canswers (kb_demo "$X" "$Y" "$Z" "$L") 60 60 q_demo (w0 1)) =
+  erased (canswers (kb_demo "$Y" "$A" "$X" "$B") 60 60 q_demo (w0 1)) /\
+  count_of (canswers (kb_demo "$X" "$Y" "$Z" "$L") 60 60 q_demo (w0 1)) = Ok 2%nat /\
+  canswers (kb_demo "$X" "$Y" "$Z" "$L") 60 60 q_demo (w0 1) <>
+  canswers (kb_demo "$Y" "$A" "$X" "$B") 60 60 q_demo (w0 1).
+Proof. split; [vm_compute; reflexivity|]. split; [vm_compute; reflexivity|]. vm_compute. discriminate. Qed.
+
+(* the same through the engine model: make_query, three requests (two answers, then none) *)
+Definition terms_demo :=
+  [at_ "p"; TList (at_ "a") (TList (at_ "b") empty_list 1 false) 2 false; v_ "$N"].
+Definition erased_obs (r : res (list qobs * str)) : res (list qobs) :=
+  match r with Ok (os, _) => Ok (map no_names_obs os) | Panic => Panic | OutOfFuel => OutOfFuel end.
+
+Example demo_requests :
+  erased_obs (run_query (kb_demo "$X" "$Y" "$Z" "$L") 60 terms_demo (repeat QAsk 3) world0) =
+  erased_obs (run_query (kb_demo "$Y" "$A" "$X" "$B") 60 terms_demo (repeat QAsk 3) world0) /\
+  (exists a b o, run_query (kb_demo "$X" "$Y" "$Z" "$L") 60 terms_demo (repeat QAsk 3) world0 =
+                 Ok ([OAns (Some a); OAns (Some b); OAns None], o)) /\
+  run_query (kb_demo "$X" "$Y" "$Z" "$L") 60 terms_demo (repeat QAsk 3) world0 <>
+  run_query (kb_demo "$Y" "$A" "$X" "$B") 60 terms_demo (repeat QAsk 3) world0.
+Proof.
+  split; [vm_compute; reflexivity|]. split; [|vm_compute; discriminate].
+  vm_compute. do 3 eexists. reflexivity.
+Qed.
+
+(* the first half: every clause fetch from the renamed knowledge base returns the renamed clause with
+   the same fresh ids and the same counter *)
+Theorem C11_clause_fetch : forall kb kb' pred i ctr,
   kb_renamed kb kb' ->
   match get_rule kb pred i ctr, get_rule kb' pred i ctr with
   | Ok (r, c), Ok (r', c') => c = c' /\ rule_renamed r r'
@@ -39,30 +273,11 @@ Theorem C11_partial_clause_fetch : forall kb kb' pred i ctr,
   end.
 Proof. exact get_rule_renamed. Qed.
 
-(* the same for the building blocks, for any renaming state *)
-Theorem C11_partial_rule : forall phi, (forall a b, phi a = phi b -> a = b) -> forall r st,
-  rename_rule (mapn_rule phi r) (mapn_st phi st) = rres phi (rename_rule r st).
-Proof. exact rename_rule_commutes. Qed.
-
-(* non-vacuity: p($X, $Y) :- q($Y, $X).  with $X, $Y swapped: same ids 8, 9 in the same places *)
-Definition C11_demo : bool :=
-  let X := [36; 88]%N in let Y := [36; 89]%N in
-  let mk a b := mkRule (TComplex [TAtom [112%N]; TVar 0 a; TVar 0 b]) (GCall (TComplex [TAtom [113%N]; TVar 0 b; TVar 0 a])) in
-  match get_rule [([112; 47; 50]%N, [mk X Y])] [112; 47; 50]%N 0 7, get_rule [([112; 47; 50]%N, [mk Y X])] [112; 47; 50]%N 0 7 with
-  | Ok (mkRule (TComplex [_; TVar 8 _; TVar 9 _]) _, 9%N), Ok (mkRule (TComplex [_; TVar 8 _; TVar 9 _]) _, 9%N) => true
-  | _, _ => false
-  end.
-Example C11_witness : C11_demo = true.
-Proof. vm_compute. reflexivity. Qed.
-
-Check C11_partial_clause_fetch : forall kb kb' pred i ctr,
-  kb_renamed kb kb' ->
-  match get_rule kb pred i ctr, get_rule kb' pred i ctr with
-  | Ok (r, c), Ok (r', c') => c = c' /\ rule_renamed r r'
-  | Panic, Panic => True
-  | OutOfFuel, OutOfFuel => True
-  | _, _ => False
-  end.
-
-Print Assumptions C11_partial_clause_fetch.
-Print Assumptions C11_partial_rule.
+Print Assumptions C11_clause_fetch.
+Print Assumptions C11_answers.
+Print Assumptions C11_answers_query.
+Print Assumptions C11_next.
+Print Assumptions C11_requests_rel.
+Print Assumptions C11_engine.
+Print Assumptions C11_requests.
+Print Assumptions C11_full_false.
